@@ -846,8 +846,12 @@ func dataMonitors(c *vh.Ctx, us []*unit, live, rest map[int64][]srow) {
 				if u.names["_database"] {
 					cause = "_database-column"
 				}
+				why := "no column named _database is involved"
+				if cause != "other" {
+					why = "a column named _database overwrites the WAL record's routing key"
+				}
 				c.Fail("rerouted-database:"+entry+":"+cause,
-					fmt.Sprintf("row rid=%d written to database %q is restored into database %q (a column named _database overwrites the WAL record's routing key)", rid, a.db, b.db), replay)
+					fmt.Sprintf("row rid=%d written to database %q is restored into database %q (%s)", rid, a.db, b.db, why), replay)
 				c.Tag("mon:rerouted-db")
 			}
 			if a.meas != b.meas {
@@ -1031,7 +1035,7 @@ func main() {
 	r := vh.NewRand(c.Seed*0x2545F4914F6CDD1D + 0x9E3779B9) // vh's streams of consecutive seeds are shifts of each other
 	nHist := 40
 	if c.Thorough() {
-		nHist = 250
+		nHist = 200
 	}
 	if c.N > 0 {
 		nHist = c.N
